@@ -2,6 +2,7 @@ package quic
 
 import (
 	"context"
+	"slices"
 
 	"github.com/refraction-networking/uquic/internal/ackhandler"
 	"github.com/refraction-networking/uquic/internal/handshake"
@@ -104,11 +105,19 @@ var newUClientConnection = func(
 
 	var params *wire.TransportParameters
 
-	if uSpec.ClientHelloSpec != nil {
+	// [UQUIC] Work on a per-connection copy of the ClientHelloSpec: uTLS's ApplyPreset
+	// fills in the key shares, and the code below rewrites the transport parameter list
+	// (source connection ID, suppression, shuffle) and uTLS caches its encoding. Doing
+	// that on the spec itself made every dial after the first one reuse the previous
+	// connection's key shares and source connection ID, so a QUICSpec value could only be
+	// dialed once.
+	clientHelloSpec := cloneClientHelloSpecForDial(uSpec.ClientHelloSpec)
+
+	if clientHelloSpec != nil {
 		// iterate over all Extensions to set the TransportParameters
 		var tpSet bool
 	FOR_EACH_TLS_EXTENSION:
-		for _, ext := range uSpec.ClientHelloSpec.Extensions {
+		for _, ext := range clientHelloSpec.Extensions {
 			switch ext := ext.(type) {
 			case *tls.QUICTransportParametersExtension:
 				params = &wire.TransportParameters{
@@ -181,7 +190,7 @@ var newUClientConnection = func(
 		s.qlogger,
 		logger,
 		s.version,
-		uSpec.ClientHelloSpec,
+		clientHelloSpec,
 	)
 	s.cryptoStreamHandler = cs
 	s.cryptoStreamManager = newCryptoStreamManager(s.initialStream, s.handshakeStream, oneRTTStream)
@@ -201,4 +210,28 @@ var newUClientConnection = func(
 		}
 	}
 	return &wrappedConn{Conn: s}
+}
+
+// cloneClientHelloSpecForDial returns a copy of chs whose per-connection state can be
+// rewritten without touching chs: the key share list (uTLS generates the keys into it)
+// and the QUIC transport parameter list (rewritten by newUClientConnection, and encoded
+// once and cached by uTLS). Parameters and all other extensions are shared with chs, so
+// a GREASE parameter keeps the ID it was pinned to. [UQUIC]
+func cloneClientHelloSpecForDial(chs *tls.ClientHelloSpec) *tls.ClientHelloSpec {
+	if chs == nil {
+		return nil
+	}
+	c := *chs
+	c.Extensions = make([]tls.TLSExtension, len(chs.Extensions))
+	for i, ext := range chs.Extensions {
+		switch e := ext.(type) {
+		case *tls.KeyShareExtension:
+			c.Extensions[i] = &tls.KeyShareExtension{KeyShares: slices.Clone(e.KeyShares)}
+		case *tls.QUICTransportParametersExtension:
+			c.Extensions[i] = &tls.QUICTransportParametersExtension{TransportParameters: slices.Clone(e.TransportParameters)}
+		default:
+			c.Extensions[i] = ext
+		}
+	}
+	return &c
 }
